@@ -149,19 +149,19 @@ func init() {
 		Run: func(c *Ctx) {
 			rng := c.RNG.Fork(2)
 			fp0 := reflect.ValueOf(otp.TimeCounterFunc).Pointer()
-			var cases []totpCase
+			bt := newBatcher(c, judgeTOTP, 0)
 			mk := func(key []byte, unix int64, period uint64, d, a int, nilp bool) totpCase {
 				return totpCase{KeyHex: hexs(key), Secret: gen.Spell(rng, ref.Base32Encode(key), rng.Intn(gen.NSpellings)), At: rng.InstantSpec(unix), Period: period, Digits: uint8(d), Algo: uint8(a), NilParam: nilp}
 			}
 			// catalogue: every period x instants around its boundaries
 			for _, p := range gen.Periods {
-				for i := 0; i < c.N(40, 400); i++ {
+				for i := 0; i < c.N(400, 4000); i++ {
 					key := rng.Bytes(gen.Pick(rng, gen.SecretLens))
-					cases = append(cases, mk(key, gen.UnixSeconds(rng, p), p, 1+rng.Intn(10), rng.Intn(3), false))
+					bt.add(mk(key, gen.UnixSeconds(rng, p), p, 1+rng.Intn(10), rng.Intn(3), false))
 				}
 			}
 			// step boundaries: k*p-2 .. k*p+2 for random (p,k)
-			for i := 0; i < c.N(200, 5000); i++ {
+			for i := 0; i < c.N(4000, 100000); i++ {
 				p := gen.Period(rng)
 				pp := p
 				if pp == 0 {
@@ -178,11 +178,11 @@ func init() {
 					if u < 0 || u >= 1<<62 {
 						continue
 					}
-					cases = append(cases, mk(key, u, p, d, a, false))
+					bt.add(mk(key, u, p, d, a, false))
 				}
 			}
 			// random, incl. unsupported parameters and nil params
-			for i := 0; i < c.N(15000, 300000); i++ {
+			for i := 0; i < c.N(200000, 4000000); i++ {
 				key := rng.Bytes(rng.Intn(70))
 				p := gen.Period(rng)
 				d, a := 1+rng.Intn(10), rng.Intn(3)
@@ -192,12 +192,12 @@ func init() {
 				if rng.Intn(25) == 0 {
 					a = rng.Intn(256)
 				}
-				cases = append(cases, mk(key, gen.UnixSeconds(rng, p), p, d, a, rng.Intn(40) == 0))
+				bt.add(mk(key, gen.UnixSeconds(rng, p), p, d, a, rng.Intn(40) == 0))
 			}
-			parallelJudge(c, cases, judgeTOTP)
+			bt.flush()
 			// one second, many renderings
 			var groups []sameSecondCase
-			for i := 0; i < c.N(300, 5000); i++ {
+			for i := 0; i < c.N(3000, 50000); i++ {
 				p := gen.Period(rng)
 				base := mk(rng.Bytes(20), gen.UnixSeconds(rng, p), p, 6+rng.Intn(5), rng.Intn(3), false)
 				g := sameSecondCase{Base: base}
@@ -210,7 +210,7 @@ func init() {
 			}
 			parallelJudge(c, groups, judgeSameSecond)
 			var defs []defaultsCase
-			for i := 0; i < c.N(300, 5000); i++ {
+			for i := 0; i < c.N(5000, 100000); i++ {
 				defs = append(defs, defaultsCase{KeyHex: hexs(rng.Bytes(1 + rng.Intn(40))), Unix: gen.UnixSeconds(rng, 30), Digits: uint8(gen.Pick(rng, []int{6, 7, 8, 9, 10, 1, 4})), Algo: uint8(rng.Intn(3))})
 			}
 			parallelJudge(c, defs, judgeDefaults)
